@@ -81,6 +81,7 @@ ids('C16', {1601: 'bulk construction differs from one-by-one insertion', 1602: '
             201: '', 202: '', 203: '', 204: '', 205: '', 206: '', 207: '', 208: '', 708: ''})
 ids('C18', {1801: 'insert_unchecked differs from insert', 1802: 'get_disjoint_unchecked_mut differs from get_disjoint_mut', 1302: '', 1303: '', 811: '',
             201: '', 202: '', 203: '', 204: '', 205: '', 206: '', 207: '', 208: '', 211: '', 212: '', 213: '', 214: '', 215: '', 302: '', 901: '', 903: '', 904: '', 905: ''})
+ids('C17', {301: 'more destructions than creations under inconsistent Eq'})
 ids('C17', {1701: 'len() > capacity() under inconsistent Eq', 1702: 'iteration count != len() under inconsistent Eq', 1703: 'aliasing mutable references',
              1704: 'memory outside the container (canary) overwritten', 1705: 'unexpected panic', 302: 'an element was leaked or destroyed twice', 901: 'double drop',
              902: 'clone of dead data', 903: 'comparison of dead data', 904: 'dead/out-of-container data handed out', 905: 'borrow of dead data'})
@@ -174,6 +175,8 @@ fam('c18_disjoint_unchecked', 'g_misc', [(2, 0), (1, 1), (2, 2), (3, 2), (2, 3),
 fam('c17_insert', 'g_liar', [0, 1, 2, 3], [4], profiles=('rel', 'dbg'))
 fam('c17_remove c17_lookup', 'g_liar', [1, 2, 3], [4], profiles=('rel', 'dbg'))
 fam('c17_disjoint', 'g_liar', [(1, 2), (2, 2), (3, 2), (2, 3), (3, 3)], [(4, 3), (4, 4)], profiles=('rel', 'dbg'))
+# third parameter: 0 intersection, 1 union, 2 difference, 3 symmetric_difference collected into a Set<_, 1>
+fam('c17_collect', 'g_liar', [(2, 1, 0), (2, 1, 1)], [(2, 1, 2), (2, 1, 3), (2, 2, 0), (3, 1, 0)], unwind=lambda c: 4)
 fam('c17_two', 'g_liar', [], [1, 2, 3], dprofiles=('rel', 'dbg'))
 fam('c17_set', 'g_liar', [(1, 1), (2, 1), (1, 2)], [(2, 2), (3, 2)])   # (2,2): 8 min
 
@@ -186,15 +189,16 @@ fam('c01_hist', 'g_map', [(2, 2)], [(2, 3), (3, 3), (3, 4)], unwind=lambda c: c[
 fam('c19_nested', 'g_fmt', [(1, 1), (1, 2)], [(2, 1), (2, 2)], lto=True, unwind=lambda c: 8)   # N=2: 4-5 min each
 fam('c06_fmt_specs', 'g_fmt', [(1, w) for w in range(5)], [(2, w) for w in range(5)], lto=True, unwind=lambda c: 8)
 fam('c19_map c19_set', 'g_fmt', [(n, w) for n in (0, 1, 2) for w in (0, 1, 2)] + [(1, 3), (2, 3)], [(3, w) for w in (0, 1, 2, 3)], lto=True, unwind=lambda c: 8)   # w: 0 {} 1 {:?} 2 {:#?} 3 {:#}
-fam('c19_map_iters', 'g_fmt', [(1, w) for w in range(9)], [(n, w) for n in (2, 3) for w in range(9)], lto=True, unwind=lambda c: 8)
+fam('c19_map_iters', 'g_fmt', [(1, w) for w in range(9)] + [(2, 5)], [(n, w) for n in (2, 3) for w in range(9) if (n, w) != (2, 5)], lto=True, unwind=lambda c: 8)
 fam('c19_set_iters', 'g_fmt', [(1, 1, w) for w in range(3)], [(1, 1, 3)] + [(n, m, w) for (n, m) in ((2, 1), (2, 2)) for w in range(4)], lto=True, unwind=lambda c: 8)   # w=3 (symmetric_difference): 6 min -> thorough
 
+fam('c20_tokens', 'g_serde', [(0, 0), (1, 1), (2, 2), (2, 3), (3, 3)], [], unwind=lambda c: 8)
 fam('c20_value_de', 'g_serde', [(1, 1), (2, 2), (2, 3), (3, 3)], [], unwind=lambda c: 8)
 fam('c20_bincode_map c20_bincode_set', 'g_serde', [(0, 0), (1, 1), (2, 2), (3, 3), (2, 3), (1, 3)], [(4, 4), (3, 5)], unwind=lambda c: 12)
 
 # --------------------------------------------------------------------------------------- properties
 PROPS = {
-    'C20': dict(fams='c20_bincode_map c20_bincode_set c20_value_de'),
+    'C20': dict(fams='c20_bincode_map c20_bincode_set c20_value_de c20_tokens'),
     'C19': dict(fams='c19_map c19_set c19_nested c19_map_iters c19_set_iters'),
     'C02': dict(fams='c01_insert c01_insert_kv c01_checked_insert c01_lookup c01_remove c01_remove_entry c01_retain c01_clear c01_drain_all '
                      'c10_into_iter c10_into_keys c10_into_values c10_set_into_iter c10_drain c10_set_drain c10_provided c10_set_provided c10_drain_methods c10_set_drain_methods '
@@ -206,7 +210,7 @@ PROPS = {
                      'c07_insert c07_remove c07_lookup c08_union c08_intersection c08_difference c08_symdiff c08_sub c14_map c14_set c15_clone c16_from_iter c13_disjoint c06_fmt_specs c19_map c19_set c19_map_iters',
                 fams_std='c06_big c06_fmt_specs c19_map c19_set c06_refs c01_insert c01_remove c15_clone c14_map c08_sub c10_drain',
                 gate='nostd_build'),
-    'C17': dict(fams='c17_insert c17_remove c17_lookup c17_disjoint c17_set c17_two'),
+    'C17': dict(fams='c17_insert c17_remove c17_lookup c17_disjoint c17_set c17_collect c17_two'),
     'C13': dict(fams='c13_disjoint c13_disjoint_tok'),
     'C15': dict(fams='c15_clone c15_set_clone c15_clone_nodrop c15_clone_from'),
     'C16': dict(fams='c16_from_iter c16_from_array c16_set_from c16_set_from_array c07_extend c07_extend_ref'),
